@@ -1,6 +1,7 @@
 import RsModel.Lemmas.Rope
 import RsModel.Lemmas.RopeSlice
 import RsModel.Lemmas.RopeStarts
+import RsModel.Lemmas.RopeLines
 /-!
 # C16 — Rope behaves exactly like the string it represents
 `render r` is the flat string a rope stands for.
@@ -205,5 +206,15 @@ theorem c16_observers (p q : RProgS) (hp : p.TextsOK) (hq : q.TextsOK) (r v : Ro
 
 /-- the shape that exposed defect F14 (argument ending with an empty piece), now answering like the flat strings -/
 example : (Rope.full [([97], 0)]).startsWith (.full [([97], 0), ([], 1)]) = true := by decide
+
+
+/-- **`lines()` / `lines_impl(trailing)`**: on every rope a program can build, the items the `Lines` iterator yields render to
+the lines of the flat string — `split_inclusive('\n')`, plus a final empty item when `trailing` and the text is empty or
+ends with a line break — whatever the division into pieces (a line may span any number of pieces, pieces may be empty) -/
+theorem c16_lines (p : RProgS) (hp : p.TextsOK) (r : Rope) (hr : p.eval = .ok r) (trailing : Bool) :
+    (r.linesR trailing).map Rope.render = Rope.linesSpec r.render trailing := by
+  rw [linesR_spec r ((c16_program p hp).2 r hr).inv trailing, lines_eq_spec]
+
+example : ((Rope.full [([97, 10], 0), ([], 2), ([98], 2), ([99, 10], 3)]).linesR true).map Rope.render = [[97, 10], [98, 99, 10], []] := by decide
 
 end Rs
